@@ -1,8 +1,114 @@
-//! C17 — correspondence driver (stub: not built yet).
+//! C17 — Gaussian density and draws.  See lean/Driver/C17.lean for the protocol.
+//!
+//! `prob` lines: the part before `##` is the comparison of `Gaussian::<f64>::probability` with the
+//! closed-form normal density at the floats given in `f=` (implementation against specification,
+//! relative tolerance 1e-9; the model never sees a float); the part after it is the value of the
+//! implementation's formula at an `Fp` point, compared with the code-shaped model's.
+//! `draw` / `mv` lines run over `Fp` (uninterpreted `sqrt ln cos sin pi`), with a counting source.
 
+use crate::c08::{parse_elems, show_elems, steer_chol, symmetrise, ParseElem};
+use crate::exact::{Fp, Rat};
+use easy_ml::numeric::extra::{Real, RealRef};
 use crate::util::*;
+use easy_ml::distributions::{
+    Gaussian, MultivariateGaussian, MultivariateGaussianError, MultivariateGaussianTensor,
+};
+use easy_ml::matrices::Matrix;
+use easy_ml::tensors::Tensor;
 
-pub fn gen(_g: &mut Gen) {}
+/// a uniform source that counts how many numbers were taken from it
+struct Counting {
+    inner: std::vec::IntoIter<Fp>,
+    taken: usize,
+}
+
+impl Counting {
+    fn new(v: Vec<Fp>) -> Counting {
+        Counting { inner: v.into_iter(), taken: 0 }
+    }
+}
+
+impl Iterator for Counting {
+    type Item = Fp;
+    fn next(&mut self) -> Option<Fp> {
+        let x = self.inner.next();
+        if x.is_some() {
+            self.taken += 1;
+        }
+        x
+    }
+}
+
+fn normal_pdf(mean: f64, variance: f64, x: f64) -> f64 {
+    (1.0 / (2.0 * std::f64::consts::PI * variance).sqrt()) * (-(x - mean) * (x - mean) / (2.0 * variance)).exp()
+}
+
+/// one multivariate draw through the matrix or the tensor variant, with a counting source
+fn run_mv<T>(toks: &[&str]) -> String
+where
+    T: Real + ParseElem + std::fmt::Display,
+    for<'a> &'a T: RealRef<T>,
+{
+    let n: usize = toks[2].parse().expect("n");
+    let k: usize = toks[3].parse().expect("k");
+    let mean = parse_elems::<T>(opt_arg("mean", toks).expect("mean="));
+    let cov = parse_elems::<T>(opt_arg("cov", toks).expect("cov="));
+    let names = parse_names(opt_arg("names", toks).unwrap_or("samples,features"));
+    let via = opt_arg("via", toks).unwrap_or("tensor");
+    let mut source = CountingSource::new(parse_elems::<T>(opt_arg("src", toks).expect("src=")));
+    let r = catch(|| {
+        if via == "matrix" {
+            let g = MultivariateGaussian::new(
+                Matrix::column(mean.clone()),
+                Matrix::from_flat_row_major((n, n), cov.clone()),
+            );
+            g.draw(&mut source, k).map(|m| {
+                let (r, c) = m.size();
+                ([("samples", r), ("features", c)], m.row_major_iter().collect::<Vec<T>>())
+            })
+        } else {
+            let g = MultivariateGaussianTensor::new(
+                Tensor::from([("means", n)], mean.clone()),
+                Tensor::from([("u", n), ("v", n)], cov.clone()),
+            )
+            .expect("valid distribution");
+            g.draw(&mut source, k, names[0], names[1]).map(|t| (t.shape(), t.iter().collect::<Vec<T>>()))
+        }
+    });
+    match r {
+        Err(kind) => panic_str(kind),
+        Ok(None) => format!("none consumed={}", source.taken),
+        Ok(Some((shape, values))) => format!(
+            "some shape={} consumed={} values={}",
+            show_shape(&shape),
+            source.taken,
+            show_elems(&values)
+        ),
+    }
+}
+
+/// a uniform source of any element type that counts how many numbers were taken from it
+struct CountingSource<T> {
+    inner: std::vec::IntoIter<T>,
+    taken: usize,
+}
+
+impl<T> CountingSource<T> {
+    fn new(v: Vec<T>) -> CountingSource<T> {
+        CountingSource { inner: v.into_iter(), taken: 0 }
+    }
+}
+
+impl<T> Iterator for CountingSource<T> {
+    type Item = T;
+    fn next(&mut self) -> Option<T> {
+        let x = self.inner.next();
+        if x.is_some() {
+            self.taken += 1;
+        }
+        x
+    }
+}
 
 pub struct Runner;
 
@@ -11,7 +117,351 @@ impl Runner {
         Runner
     }
 
-    pub fn step(&mut self, _toks: &[&str]) -> String {
-        "unimplemented".into()
+    pub fn step(&mut self, toks: &[&str]) -> String {
+        if toks.len() < 2 || toks[0] != "@" {
+            return "bad-op".into();
+        }
+        match toks[1] {
+            "prob" => {
+                let p: Vec<Fp> = toks[2..5].iter().map(|t| parse_elems::<Fp>(t).remove(0)).collect();
+                let f: Vec<f64> = split_comma(opt_arg("f", toks).expect("f=")).iter().map(|t| t.parse().expect("f64")).collect();
+                let via = opt_arg("via", toks).unwrap_or("probability");
+                let r = catch(|| {
+                    let g = Gaussian::new(f[0], f[1]);
+                    #[allow(deprecated)]
+                    let got = if via == "map" { g.map(&f[2]) } else { g.probability(&f[2]) };
+                    let want = normal_pdf(f[0], f[1], f[2]);
+                    let close = got.is_finite() && (got - want).abs() <= 1e-9 * want.abs();
+                    let g = Gaussian::new(p[0].clone(), p[1].clone());
+                    #[allow(deprecated)]
+                    let sym = if via == "map" { g.map(&p[2]) } else { g.probability(&p[2]) };
+                    (close, got, want, sym)
+                });
+                match r {
+                    Err(k) => panic_str(k),
+                    Ok((true, _, _, sym)) => format!("pdf=ok ## p={}", sym),
+                    Ok((false, got, want, sym)) => format!("pdf=bad(got={:e},want={:e}) ## p={}", got, want, sym),
+                }
+            }
+            "draw" => {
+                let mean = parse_elems::<Fp>(toks[2]).remove(0);
+                let variance = parse_elems::<Fp>(toks[3]).remove(0);
+                let k: usize = toks[4].parse().expect("k");
+                let mut source = Counting::new(parse_elems::<Fp>(toks[5]));
+                let r = catch(|| Gaussian::new(mean, variance).draw(&mut source, k));
+                match r {
+                    Err(kind) => panic_str(kind),
+                    Ok(Some(samples)) => format!(
+                        "some n={} consumed={} samples={}",
+                        samples.len(),
+                        source.taken,
+                        show_elems(&samples)
+                    ),
+                    Ok(None) => format!("none consumed={}", source.taken),
+                }
+            }
+            "mv" => {
+                if opt_arg("ty", toks) == Some("rat") {
+                    run_mv::<Rat>(toks)
+                } else {
+                    run_mv::<Fp>(toks)
+                }
+            }
+            "new" => {
+                let nums: Vec<usize> = toks[3..].iter().map(|t| t.parse().expect("usize")).collect();
+                if toks[2] == "matrix" {
+                    let r = catch(|| {
+                        MultivariateGaussian::new(
+                            Matrix::from_flat_row_major((nums[0], nums[1]), vec![Fp(1); nums[0] * nums[1]]),
+                            Matrix::from_flat_row_major((nums[2], nums[3]), vec![Fp(1); nums[2] * nums[3]]),
+                        );
+                    });
+                    match r {
+                        Ok(()) => "ok".into(),
+                        Err(k) => panic_str(k),
+                    }
+                } else {
+                    let r = catch(|| {
+                        MultivariateGaussianTensor::new(
+                            Tensor::from([("m", nums[0])], vec![Fp(1); nums[0]]),
+                            Tensor::from([("a", nums[1]), ("b", nums[2])], vec![Fp(1); nums[1] * nums[2]]),
+                        )
+                        .map(|_| ())
+                        .map_err(|e| match *e {
+                            MultivariateGaussianError::NotCovarianceMatrix { .. } => "NotCovarianceMatrix",
+                            MultivariateGaussianError::MeanVectorWrongLength { .. } => "MeanVectorWrongLength",
+                            _ => "other",
+                        })
+                    });
+                    match r {
+                        Ok(Ok(())) => "ok".into(),
+                        Ok(Err(e)) => format!("err({})", e),
+                        Err(k) => panic_str(k),
+                    }
+                }
+            }
+            _ => "bad-op".into(),
+        }
+    }
+}
+
+// ---------------------------------------------------------------------------------------------
+// generation
+// ---------------------------------------------------------------------------------------------
+
+fn rand_fp(g: &mut Gen) -> Fp {
+    Fp::new(g.rng.next())
+}
+
+fn fps(g: &mut Gen, n: usize) -> Vec<Fp> {
+    (0..n).map(|_| rand_fp(g)).collect()
+}
+
+/// a symmetric covariance over Fp on which Cholesky succeeds (`want_pd`) or fails, found by
+/// rejection with the generator's steering reference
+fn covariance(g: &mut Gen, n: usize, want_pd: bool) -> Vec<Fp> {
+    loop {
+        let mut a = fps(g, n * n);
+        symmetrise(n, &mut a);
+        let (fail, _) = steer_chol::<Fp>(n, &a, None);
+        if fail.is_none() == want_pd {
+            return a;
+        }
+    }
+}
+
+/// L·Lᵀ over the rationals
+fn rat_llt(n: usize, l: &[Rat]) -> Vec<Rat> {
+    let mut a = vec![Rat::int(0); n * n];
+    for i in 0..n {
+        for j in 0..n {
+            let mut s = Rat::int(0);
+            for k in 0..n {
+                s = s + l[i * n + k].clone() * l[j * n + k].clone();
+            }
+            a[i * n + j] = s;
+        }
+    }
+    a
+}
+
+pub fn gen(g: &mut Gen) {
+    // ---- density -------------------------------------------------------------------------------
+    let means = [-3.0, -1.5, -0.25, 0.0, 0.5, 2.0, 10.0];
+    let variances = [0.01, 0.25, 0.5, 1.0, 2.0, 4.0, 9.0, 100.0];
+    let offsets = [-3.5, -2.0, -1.0, -0.3, 0.0, 0.7, 1.0, 2.0, 4.0];
+    for (mi, mean) in means.iter().enumerate() {
+        for variance in variances {
+            for t in offsets {
+                if !g.thorough && (mi % 2 == 1) && t != 1.0 {
+                    continue;
+                }
+                let x = mean + t * f64::sqrt(variance);
+                let via = if g.rng.chance(1, 5) { "map" } else { "probability" };
+                let (p0, p1, p2) = (rand_fp(g), rand_fp(g), rand_fp(g));
+                g.op(format!("@ prob {} {} {} f={},{},{} via={}", p0, p1, p2, mean, variance, x, via));
+                g.count(if variance == 1.0 { "prob.variance=1" } else { "prob.variance!=1" });
+            }
+        }
+    }
+    // the witness of DESIGN §8 #10
+    g.op("@ prob 0 4 2 f=0,4,2 via=probability".to_string());
+    g.count("prob.variance!=1");
+
+    // ---- univariate draws: every k, every source length 0..k+2 --------------------------------------
+    let max_k = if g.thorough { 12 } else { 7 };
+    for k in 0..=max_k {
+        for len in 0..=(k + 2) {
+            for _ in 0..(if g.thorough { 8 } else { 3 }) {
+                let src = fps(g, len);
+                let (p0, p1) = (rand_fp(g), rand_fp(g));
+                g.op(format!("@ draw {} {} {} {}", p0, p1, k, show_elems(&src)));
+                g.count(&format!("draw.k={}", k));
+                g.count(if len >= 2 * ((k + 1) / 2) { "draw.source-sufficient" } else { "draw.source-runs-dry" });
+            }
+        }
+    }
+    // unit normal and small constants
+    for k in [1usize, 2, 3] {
+        let src = fps(g, k + 1);
+        g.op(format!("@ draw 0 1 {} {}", k, show_elems(&src)));
+        g.count("draw.standard-normal");
+    }
+
+    // ---- multivariate draws ---------------------------------------------------------------------
+    let max_n = if g.thorough { 5 } else { 4 };
+    let name_pairs = [["samples", "features"], ["features", "samples"], ["a", "b"], ["row", "column"]];
+    for n in 1..=max_n {
+        let need = 2 * ((n + 1) / 2);
+        for k in 0..=3usize {
+            for rep in 0..(if g.thorough { 10 } else { 4 }) {
+                let mean = fps(g, n);
+                let cov = covariance(g, n, true);
+                let total = k * need;
+                // exact length, one short, one long, a random shorter one
+                let mut lens = vec![total, total + 1];
+                if total > 0 {
+                    lens.push(total - 1);
+                    lens.push(g.rng.below(total));
+                }
+                if k == 0 && rep > 0 {
+                    continue;
+                }
+                for len in lens {
+                    let src = fps(g, len);
+                    let names = *g.rng.pick(&name_pairs);
+                    let line = |names: [&str; 2], via: &str| {
+                        format!(
+                            "@ mv {} {} mean={} cov={} src={} names={},{} via={}",
+                            n, k, show_elems(&mean), show_elems(&cov), show_elems(&src), names[0], names[1], via
+                        )
+                    };
+                    // the matrix variant has fixed names; the tensor variant is run with the same
+                    // names (agreement) and with another choice
+                    g.op(line(["samples", "features"], "matrix"));
+                    g.op(line(["samples", "features"], "tensor"));
+                    g.op(line(names, "tensor"));
+                    g.count(&format!("mv.N={}", n));
+                    g.count(&format!("mv.samples={}", k));
+                    g.count(if len >= total { "mv.source-sufficient" } else { "mv.source-runs-dry" });
+                }
+            }
+        }
+        // covariance that is not positive definite; equal dimension names
+        for _ in 0..3 {
+            let mean = fps(g, n);
+            let cov = covariance(g, n, false);
+            let src = fps(g, 2 * need);
+            for via in ["matrix", "tensor"] {
+                g.op(format!(
+                    "@ mv {} 2 mean={} cov={} src={} names=samples,features via={}",
+                    n, show_elems(&mean), show_elems(&cov), show_elems(&src), via
+                ));
+            }
+            g.count("mv.not-positive-definite");
+            let cov = covariance(g, n, true);
+            g.op(format!(
+                "@ mv {} 2 mean={} cov={} src={} names=x,x via=tensor",
+                n, show_elems(&mean), show_elems(&cov), show_elems(&src)
+            ));
+            g.count("mv.equal-names");
+        }
+    }
+
+    // ---- singular covariances: an exactly-zero pivot at every pivot position ------------------------
+    // (positive semidefinite but not positive definite: duplicated / perfectly correlated features,
+    // a zero-variance feature, the 1×1 covariance [0]); the draw must be absent, for the matrix
+    // variant and for the tensor variant with both orders of the dimension names.
+    let name_orders: [(&str, [&str; 2]); 3] = [
+        ("matrix", ["samples", "features"]),
+        ("tensor", ["samples", "features"]),
+        ("tensor", ["features", "samples"]),
+    ];
+    for n in 1..=5usize {
+        let need = 2 * ((n + 1) / 2);
+        for at in 0..n {
+            // over Fp: steer the pivot `at` of a random symmetric matrix to exactly zero (the pivots
+            // before it positive, so that the run reaches it)
+            for _ in 0..(if g.thorough { 4 } else { 2 }) {
+                let cov = loop {
+                    let mut a = fps(g, n * n);
+                    symmetrise(n, &mut a);
+                    let (_, s) = steer_chol::<Fp>(n, &a, Some(at));
+                    a[at * n + at] = s;
+                    if steer_chol::<Fp>(n, &a, None).0 == Some(at) {
+                        break a;
+                    }
+                };
+                let mean = fps(g, n);
+                let k = g.rng.range(1, 3);
+                let src = fps(g, k * need + 1);
+                for (via, names) in name_orders {
+                    g.op(format!(
+                        "@ mv {} {} mean={} cov={} src={} names={},{} via={}",
+                        n, k, show_elems(&mean), show_elems(&cov), show_elems(&src), names[0], names[1], via
+                    ));
+                }
+                g.count(&format!("mv.fp.zero-pivot-at={}", at));
+            }
+            // over Rat: L·Lᵀ for a lower-triangular rational L whose diagonal entry `at` is zero and
+            // whose other diagonal entries are positive: genuinely positive semidefinite and singular,
+            // every earlier pivot an exact square, pivot `at` exactly zero
+            for _ in 0..(if g.thorough { 4 } else { 2 }) {
+                let mut l = vec![Rat::int(0); n * n];
+                for i in 0..n {
+                    for j in 0..i {
+                        let d = *g.rng.pick(&[1i128, 1, 2, 3]);
+                        l[i * n + j] = Rat::new(g.rng.below(7) as i128 - 3, d);
+                    }
+                    if i != at {
+                        let d = *g.rng.pick(&[1i128, 1, 2]);
+                        l[i * n + i] = Rat::new(g.rng.below(4) as i128 + 1, d);
+                    }
+                }
+                let cov = rat_llt(n, &l);
+                let mean: Vec<Rat> = (0..n).map(|_| Rat::int(g.rng.below(9) as i64 - 4)).collect();
+                let k = g.rng.range(1, 3);
+                let src: Vec<Rat> = (0..k * need + 1).map(|_| Rat::new(g.rng.below(9) as i128 + 1, 10)).collect();
+                for (via, names) in name_orders {
+                    g.op(format!(
+                        "@ mv {} {} mean={} cov={} src={} names={},{} via={} ty=rat",
+                        n, k, show_elems(&mean), show_elems(&cov), show_elems(&src), names[0], names[1], via
+                    ));
+                }
+                g.count(&format!("mv.rat.singular-psd.zero-pivot-at={}", at));
+            }
+        }
+        // named singular covariances over Rat: all-ones (perfectly correlated features), a duplicated
+        // feature, a zero-variance feature, and indefinite / negative ones
+        let mut named: Vec<(&str, Vec<Rat>)> = vec![];
+        if n >= 2 {
+            named.push(("all-ones", vec![Rat::int(1); n * n]));
+        }
+        let mut zero_var = vec![Rat::int(0); n * n];
+        for i in 0..n {
+            zero_var[i * n + i] = if i == n - 1 { Rat::int(0) } else { Rat::int(4) };
+        }
+        named.push(("zero-variance-feature", zero_var));
+        if n >= 2 {
+            // features 0 and n-1 identical: covariance of (x0, …, x0)
+            let mut l = vec![Rat::int(0); n * n];
+            for i in 0..n - 1 {
+                l[i * n + i] = Rat::int(1 + i as i64);
+            }
+            l[(n - 1) * n] = Rat::int(1);
+            named.push(("duplicated-feature", rat_llt(n, &l)));
+            let mut neg = vec![Rat::int(0); n * n];
+            for i in 0..n {
+                neg[i * n + i] = if i == n - 1 { Rat::int(-1) } else { Rat::int(9) };
+            }
+            named.push(("negative-variance", neg));
+        }
+        for (label, cov) in named {
+            let mean: Vec<Rat> = (0..n).map(|i| Rat::int(i as i64)).collect();
+            let src: Vec<Rat> = (0..2 * need).map(|i| Rat::new(i as i128 + 1, 20)).collect();
+            for (via, names) in name_orders {
+                g.op(format!(
+                    "@ mv {} 2 mean={} cov={} src={} names={},{} via={} ty=rat",
+                    n, show_elems(&mean), show_elems(&cov), show_elems(&src), names[0], names[1], via
+                ));
+            }
+            g.count(&format!("mv.rat.{}", label));
+        }
+    }
+
+    // ---- constructor validation -------------------------------------------------------------------
+    for mr in 1..=3 {
+        for mc in 1..=2 {
+            for cr in 1..=3 {
+                for cc in 1..=3 {
+                    g.op(format!("@ new matrix {} {} {} {}", mr, mc, cr, cc));
+                    g.count("new.matrix");
+                    if mc == 1 {
+                        g.op(format!("@ new tensor {} {} {}", mr, cr, cc));
+                        g.count("new.tensor");
+                    }
+                }
+            }
+        }
     }
 }
